@@ -363,7 +363,7 @@ fn rand_tree(rng: &mut Rng, depth: usize, pool: &[String]) -> Yaml<'static> {
             0 => Yaml::Value(Scalar::Null),
             1 => Yaml::Value(Scalar::Boolean(rng.chance(1, 2))),
             2 => Yaml::Value(Scalar::Integer([0, -1, 1, i64::MIN, i64::MAX, 42, -9000][rng.below(7)])),
-            3 => Yaml::Value(Scalar::FloatingPoint([1.0, -0.0, 0.0, 0.1, 1e16, 1e300, 5e-324, 123456789.125, -2.5e-7, 3.0e22][rng.below(10)].into())),
+            3 => Yaml::Value(Scalar::FloatingPoint([1.0, -0.0, 0.0, 0.1, 1e16, 1e300, 5e-324, 123456789.125, -2.5e-7, 3.0e22, f64::INFINITY, f64::NEG_INFINITY, f64::NAN][rng.below(13)].into())),
             4 => Yaml::Sequence(vec![]),
             5 => Yaml::Mapping(Mapping::new()),
             _ => st(&pool[rng.below(pool.len())]),
